@@ -325,3 +325,26 @@ def broadcast_empty_regular_with_empty_list(case, why):
     def empty_var(L):
         return (L.get("c") == "List" and len(L.get("s", [1])) == 0) or (L.get("c") == "ListOffset" and len(L.get("o", [])) == 1)
     return (empty_reg0(a) and empty_var(b)) or (empty_reg0(b) and empty_var(a))
+
+
+def arrow_null_over_empty_content(case, why):
+    """F42: to_arrow replaces the index of every missing value by 0 and builds IndexedArray(index, content); when the
+    content is EMPTY that index is out of range, and the projection reads outside the content's buffers (garbage list
+    offsets / buffer sizes under the null mask; from_arrow may then fail with 'buffer size must be a multiple...')."""
+    if case.get("act") != "buffers" or "arrow" not in why:
+        return False
+    import replay
+
+    def bad(L):
+        if not isinstance(L, dict):
+            return False
+        if L.get("c") == "IndexedOption":
+            try:
+                if len(replay.abstract_to_list(L["x"])) == 0:
+                    return True
+            except Exception:
+                pass
+        if "x" in L and bad(L["x"]):
+            return True
+        return any(bad(x) for x in L.get("xs", []))
+    return bad(case.get("from"))
